@@ -254,7 +254,7 @@ template <typename K, bool Hashed>
 static void addQueueFamily(bool full) {
 	using namespace eventpp;
 	std::string kn = std::string("C05/keys/") + KeyOps<K>::name();
-	const int dq = 3, dt = 4;
+	const int dq = 3, dt = 5;
 	addCell<Cell<K, K, Tracked, Pol<ArgumentPassingAutoDetect, false, Hashed>, false, true> >(kn + "/key-by-value/payload-by-value/auto/default-map", dq, dt);
 	addCell<Cell<K, const K &, const Tracked &, Pol<ArgumentPassingIncludeEvent, true, Hashed>, false, true> >(kn + "/key-const-ref/payload-const-ref/include/user-map", dq, dt);
 	addCell<Cell<K, K, Tracked, PolGetEvent<K, false, Hashed>, true, true> >(kn + "/getEvent-policy/payload-by-value/default-map", dq, dt);
@@ -269,7 +269,7 @@ template <typename K, bool Hashed>
 static void addKeyFamily(bool full) {
 	using namespace eventpp;
 	std::string kn = std::string("C04/") + KeyOps<K>::name();
-	const int dq = 3, dt = 4;
+	const int dq = 3, dt = 5;
 	// key by value
 	addCell<Cell<K, K, Tracked, Pol<ArgumentPassingAutoDetect, false, Hashed>, false> >(kn + "/key-by-value/payload-by-value/auto/default-map", dq, dt);
 	addCell<Cell<K, K, const Tracked &, Pol<ArgumentPassingIncludeEvent, false, Hashed>, false> >(kn + "/key-by-value/payload-const-ref/include/default-map", dq, dt);
